@@ -104,6 +104,30 @@ def build_response(rng, big=False):
     return bytes(msg), recs
 
 
+def long_target_response(rng):
+    """an SRV answer whose target expands to about 256 bytes: plain labels (and sometimes a
+    compression pointer into another long name) that cross the size of the fixed target field
+    inside a label, exactly at a label boundary, or one byte either side"""
+    msg = bytearray(struct.pack(">HBBHHHH", rng.randrange(65536), 0x81, 0x80, 1, 1, 0, 0))
+    q = b"\x0c_xmpp-client\x04_tcp\x02ex\x00"
+    msg += q + struct.pack(">HH", 33, 1)
+    total = rng.choice([200, 240, 250, 253, 254, 255, 256, 257, 258, 270, 300, 330, 400])
+    labels = []
+    n = 0
+    while n < total:
+        l = min(rng.choice([1, 2, 7, 20, 50, 50, 63]), 63, max(1, total - n - 1))
+        labels.append(bytes(rng.choice(b"abcdefghijklmnopqrstuvwxyz0123456789-") for _ in range(l)))
+        n += l + 1
+    name = b"".join(bytes([len(x)]) + x for x in labels)
+    if rng.random() < 0.3:
+        name += b"\xc0\x0c"            # continue with the question name through a pointer
+    else:
+        name += b"\x00"
+    rdata = struct.pack(">HHH", rng.randrange(3), rng.randrange(3), 5222) + name
+    msg += b"\xc0\x0c" + struct.pack(">HHIH", 33, 1, 60, len(rdata)) + rdata
+    return bytes(msg)
+
+
 def expected(recs):
     lst = list(reversed(recs))
     lst.sort(key=lambda r: (r[0], -r[1]))   # stable
@@ -186,6 +210,8 @@ def generate(rng, tier, override=0):
         ops.append(op)
         for _ in range(rng.choice([0, 1, 2, 4])):
             ops.append("lookup " + hx(mutate(rng, pkt)))
+    for _ in range(override or (400 if tier == "quick" else 6000)):
+        ops.append("lookup " + hx(long_target_response(rng)))
     for p in pk:
         for _ in range(override or (300 if tier == "quick" else 5000)):
             ops.append("lookup " + hx(mutate(rng, p)))
